@@ -95,7 +95,7 @@ func (e *Engine) inlinable(st *State, fn *ssa.Function, c *FuncContract) bool {
 		return false
 	}
 	if c != nil {
-		if c.NoInline || c.Trusted || len(c.Requires) > 0 || len(c.Ensures) > 0 || c.HasAssigns {
+		if c.NoInline || c.Trusted || (!c.Inline && (len(c.Requires) > 0 || len(c.Ensures) > 0 || c.HasAssigns)) {
 			return false
 		}
 	}
@@ -1762,6 +1762,9 @@ func (e *Engine) runHooks(st *State, fr *Frame, instr ssa.Instruction, key, when
 			continue
 		}
 		if h.Callee != "*" && !strings.Contains(key, h.Callee) {
+			continue
+		}
+		if h.ExecOnly && (strings.HasPrefix(key, "defer ") || strings.HasPrefix(key, "go ")) {
 			continue
 		}
 		if h.Ord > 0 && e.callOrdinal(fr.fn, instr, h.Callee) != h.Ord {
